@@ -26,18 +26,33 @@ PROPERTY = 'C08'
 LEVEL = 'model_checking'
 RULE = ('commutation: full product catalog variant x pre-cache set x index form x public property, each one history '
         '(build, pre-cache, index, evaluate) executed on the real objects and compared with the value of a fresh '
-        'catalog taken at the same positions; a history is non-trivial when the index selects >= 1 source and either '
+        'catalog taken at the same positions.  "property" includes the per-source results of the public methods that '
+        'take an argument (fluxfrac_radius, circular_photometry, kron_photometry, make_*_apertures, make_cutouts, '
+        'to_table; small argument alphabets) and the extra properties those methods create with name=.  The index '
+        'forms put every position of the catalog alone into a scalar child, and the catalog variants contain, besides '
+        'ordinary sources, one source for each exceptional branch of the per-source loops (completely masked, '
+        'non-finite centroid, quadratic fit fails, no flux-fraction radius solution, minimum Kron radius, minimum '
+        'circular Kron radius, cut by the image edge, non-finite pixel; ApertureStats: aperture cut by the edge, '
+        'outside the image, completely masked), each with an ordinary predecessor, so that a value that depends on '
+        'the neighbours in the catalog shows.  A history is non-trivial when the index selects >= 1 source and either '
         'something was cached before indexing or the child is scalar / reordered.  independence: BFS over '
         'extra-property histories on {parent, child}, states = digests of both instance __dict__s (date stamp '
-        'excluded); non-trivial when the history contains an index and a mutation after it')
+        'excluded); non-trivial when the history contains an index and a mutation after it; every photometry method '
+        'run in a history is also compared per source with the fresh full catalog')
 ASSUMPTIONS = ['numpy fancy indexing of a plain array / list comprehension is the reference for "take"',
                'a property value of a fresh catalog (only that property read) is the reference for the parent value; '
                'C07/C16 judge whether that value is right',
-               'evaluating one property on the child after restoring its __dict__ to the post-index snapshot is the '
+               'evaluating one property on the child after restoring its __dict__ (and the content of its '
+               'extra-property list) to the post-index snapshot is the '
                'same history as indexing a fresh parent again (validated per batch by a digest of the snapshot; '
                'every reported violation is re-executed as a fresh single history)',
                'per-source values computed on a sub-catalog may differ from the full catalog in the last ulp of '
-               'vectorised transcendental functions: rtol 1e-11']
+               'vectorised transcendental functions: rtol 1e-11',
+               'the result of a public method with a fixed argument, and the extra property it creates with name=, '
+               'count as a "public property p" of the statement ("running photometry methods", "whether p was '
+               'evaluated before or after the indexing")',
+               'which exceptional branch a source of the hand-made scene takes is measured on the tree under test '
+               '(coverage.exceptional_sources), not assumed']
 
 # tolerance: child and parent run the same per-source formulas, only the vector length differs; 1e-11 relative (1e-13
 # absolute) covers last-ulp SIMD differences and is ~1e5 ulp, far below any mis-slicing (a wrong row differs by O(1)).
@@ -75,6 +90,60 @@ def _image(seed):
     return _SCENE[seed]
 
 
+_SCENE2 = {}
+HARD6_LABELS = (2, 3, 5, 8, 9, 12)             # deliberately non-consecutive
+# what each source of 'hard6' is there for (position -> exceptional per-source path); positions 0 and 2 are ordinary bright
+# sources, so that every exceptional source but the last two has an ordinary predecessor in the parent
+HARD6_KINDS = ('ordinary', 'no fluxfrac_radius(0.5 / 1.0) solution (thin line in a negative trough; measured Kron radius '
+               'has a non-positive denominator -> minimum Kron radius)', 'ordinary',
+               'negative source: isophotal centroid NaN -> aperture / optimizer arguments None, not masked',
+               'cut by the image edge and contains an unmasked NaN pixel',
+               '2x2 pixels: quadratic centroid fit fails; below the minimum circular Kron radius -> kron_radius 0, '
+               'circular Kron aperture')
+
+
+def _image2(seed):
+    """Scene of the 'hard6' variant: a hand-made segmentation image (structure independent of the seed) in which four of
+    the six sources take an exceptional branch of the per-source loops of SourceCatalog.  Only the noise, the sub-pixel
+    jitter of the Gaussians and the error map come from the seed."""
+    if seed not in _SCENE2:
+        from astropy.modeling.models import Gaussian2D
+        rng = np.random.default_rng([seed, 809])
+        ny, nx = 32, 40
+        yy, xx = np.mgrid[0:ny, 0:nx]
+        img = rng.normal(0, 0.3, (ny, nx))
+        jit = rng.uniform(-0.3, 0.3, size=6)
+        seg = np.zeros((ny, nx), int)
+        for k, (lab, (a, x0, y0, sx, sy, th)) in enumerate([(2, (80, 8.3, 7.8, 2.0, 1.3, 0.5)), (5, (60, 30.1, 8.2, 1.6, 1.6, 0.0)),
+                                                            (9, (50, 38.4, 24.1, 2.2, 1.4, 2.0))]):
+            g = Gaussian2D(a, x0 + jit[2 * k], y0 + jit[2 * k + 1], sx, sy, th)(xx, yy)
+            img += g
+            seg[(g > 3.0) & (seg == 0)] = lab
+        # label 3: a 1x7 line of +U between two rows of -U/2.  The Kron ellipse (7.05 x 1.01 pix) has positive flux
+        # (about 3 U), but a circle of radius r around the centre never holds half of it: at the bracket ends
+        # r = 7.05 - j the enclosed flux is about (2.0, 0.6, 0.3, -0.8, -2, -2, -2) U for r = 1.05 ... 7.05 < 1.6 U
+        # (the trough ratio may lie anywhere in 0.43 .. 0.64; checked for seeds 0..11) -> no half-light radius.
+        u_line = 12.0
+        img[20, 4:11] += u_line
+        seg[20, 4:11] = 3
+        img[19, 3:12] -= 0.5 * u_line
+        img[21, 3:12] -= 0.5 * u_line
+        # label 8: a negative source (e.g. measured on another band): isophotal centroid undefined
+        neg = Gaussian2D(-30, 20.3, 22.6, 1.5, 1.5, 0)(xx, yy)
+        img += neg
+        seg[neg < -3] = 8
+        # label 12: 2x2 pixels
+        img[28:30, 28:30] += 30.0 + rng.uniform(0, 1, (2, 2))
+        seg[28:30, 28:30] = 12
+        img[25, 37] = np.nan                                      # unmasked non-finite pixel inside label 9
+        err = rng.uniform(0.8, 1.2, (ny, nx))
+        bkg = 0.1 + 0.01 * xx + 0.02 * yy
+        if tuple(np.unique(seg)[1:]) != HARD6_LABELS:
+            raise RuntimeError(f'hard6 scene has labels {np.unique(seg)}')
+        _SCENE2[seed] = (img, err, bkg, seg)
+    return _SCENE2[seed]
+
+
 def _wcs():
     from astropy.wcs import WCS
     w = WCS(naxis=2)
@@ -85,7 +154,7 @@ def _wcs():
     return w
 
 
-SC_VARIANTS = ('plain4', 'rich4', 'single')
+SC_VARIANTS = ('plain4', 'rich4', 'single', 'hard6')
 AS_VARIANTS = ('circ4', 'sky3', 'single')
 
 
@@ -93,6 +162,12 @@ def make_sc(variant, seed):
     """Fresh SourceCatalog of a variant (inputs are fresh copies)."""
     import astropy.units as u
     from photutils.segmentation import SegmentationImage, SourceCatalog
+    if variant == 'hard6':
+        # 3-element kron_params with a minimum circular radius that the 2x2 source does not reach
+        img, err, bkg, segd = (a.copy() for a in _image2(seed))
+        # (no convolved_data: the shape of the thin line must come from the unsmoothed pixels)
+        return SourceCatalog(img, SegmentationImage(segd), error=err, background=bkg, localbkg_width=4,
+                             kron_params=(2.5, 1.4, 2.5))
     img, err, bkg, conv, segd = (a.copy() for a in _image(seed))
     if variant == 'plain4':
         return SourceCatalog(img, SegmentationImage(segd), error=err, background=bkg, localbkg_width=3)
@@ -140,9 +215,7 @@ def make(cls, variant, seed):
 
 
 def nsources(cls, variant):
-    if variant == 'single':
-        return 1
-    return 4 if variant.endswith('4') else 3
+    return {'single': 1, 'sky3': 3, 'hard6': 6}.get(variant, 4)
 
 
 # ============================================================================ index forms
@@ -151,7 +224,10 @@ def index_forms(n):
     if n == 1:
         return [['int', 0], ['int', -1], ['npint', 0], ['slice', 0, 1, None], ['slice', None, None, -1], ['list', [0]],
                 ['bool', [1]], ['label', 0], ['labels', [0]], ['chain', ['slice', 0, None, None], ['int', 0]]]
-    forms = [['int', 0], ['int', -1], ['npint', 1], ['slice', 0, 2, None], ['slice', None, None, -1],
+    # every position occurs as a single-source child (int k / int -1): a per-source loop that carries state from the
+    # previous source cannot hide there
+    forms = [['int', 0], ['int', -1]] + [['int', k] for k in range(1, n - 1)] + [
+             ['npint', 1], ['slice', 0, 2, None], ['slice', None, None, -1],
              ['slice', 1, None, 2], ['list', [2, 0]], ['list', [1]], ['array', [n - 1, 1, 1]],
              ['bool', [1, 0, 1] + [0] * (n - 3)], ['bool', [0, 1] + [0] * (n - 2)], ['label', 1], ['label', n - 1],
              ['labels', [2, 0]], ['chain', ['slice', 1, None, None], ['int', 0]],
@@ -209,6 +285,9 @@ def _is_seq(v):
 
 def take(v, sel):
     """Reference "index a per-source value": element for an int, sub-sequence for a list of positions."""
+    from astropy.table import Table
+    if isinstance(v, Table):                   # a scalar catalog reports a one-row table
+        return v[[sel] if isinstance(sel, int) else list(sel)]
     if isinstance(sel, int):
         return v[sel]
     if _is_seq(v):
@@ -224,7 +303,68 @@ def norm(v):
     if hasattr(v, '_params') and hasattr(v, 'positions'):
         return {'aperture': type(v).__name__, 'positions': np.asarray(getattr(v.positions, 'value', v.positions)),
                 'params': {k: getattr(v, k) for k in v._params}}
+    if type(v).__name__ == 'CutoutImage':
+        return {'cutout': np.asarray(v.data), 'bbox_original': norm_bbox(v.bbox_original), 'xyorigin': np.asarray(v.xyorigin),
+                'position': np.asarray(v.position, dtype=float), 'mode': v.mode}
+    from astropy.table import Table
+    if isinstance(v, Table):
+        import astropy.units as u
+        from astropy.coordinates import SkyCoord
+        return {n: (v[n] if isinstance(v[n], SkyCoord) else u.Quantity(v[n]) if isinstance(v[n], u.Quantity)
+                    else np.asarray(v[n])) for n in v.colnames}
     return v
+
+
+def norm_bbox(b):
+    return [b.ixmin, b.ixmax, b.iymin, b.iymax]
+
+
+# ============================================================================ methods with arguments
+# "Properties" that take an argument: the per-source result of a public method called with a fixed argument, and the
+# extra property that the photometry methods create with ``name=``.  spec = (method, args, name or None, attributes
+# created by name).  Argument alphabets: fluxfrac in {0.2, 0.5 (what centroid_win uses), 1.0 (boundary of the valid
+# range)}; circular radius in {1.5 (inside the source), 6.0 (reaches neighbours / the image edge)}; Kron parameters
+# in {2-tuple, 3-tuple with a large minimum circular radius}.
+SC_METHODS = {
+    'fluxfrac_radius(0.2)': ('fluxfrac_radius', (0.2,), None, ()),
+    'fluxfrac_radius(0.5)': ('fluxfrac_radius', (0.5,), None, ()),
+    'fluxfrac_radius(1.0)': ('fluxfrac_radius', (1.0,), None, ()),
+    'fluxfrac_radius(0.5,name=m_r)': ('fluxfrac_radius', (0.5,), 'm_r', ('m_r',)),
+    'circular_photometry(1.5)': ('circular_photometry', (1.5,), None, ()),
+    'circular_photometry(6.0)': ('circular_photometry', (6.0,), None, ()),
+    'circular_photometry(3.0,name=m_c)': ('circular_photometry', (3.0,), 'm_c', ('m_c_flux', 'm_c_fluxerr')),
+    'kron_photometry((2.5,1.4))': ('kron_photometry', ((2.5, 1.4),), None, ()),
+    'kron_photometry((1.5,2.0,3.0))': ('kron_photometry', ((1.5, 2.0, 3.0),), None, ()),
+    'kron_photometry((2.0,1.0),name=m_k)': ('kron_photometry', ((2.0, 1.0),), 'm_k', ('m_k_flux', 'm_k_fluxerr')),
+    'make_circular_apertures(3.0)': ('make_circular_apertures', (3.0,), None, ()),
+    'make_kron_apertures((2.0,1.0))': ('make_kron_apertures', ((2.0, 1.0),), None, ()),
+    'make_cutouts((5,7))': ('make_cutouts', ((5, 7),), None, ()),
+    'to_table()': ('to_table', (), None, ()),
+}
+AS_METHODS = {'to_table()': ('to_table', (), None, ())}
+METHODS = {'SC': SC_METHODS, 'AS': AS_METHODS}
+
+
+def _pack(v):
+    """(flux, fluxerr) -> one per-source value of shape (n, 2) (scalar catalog: (2,))."""
+    if isinstance(v, tuple):
+        return np.stack(list(v), axis=-1)
+    return v
+
+
+def evaluate(cat, cls, p):
+    """Read property p, or call the method that p stands for."""
+    spec = METHODS[cls].get(p)
+    if spec is None:
+        return getattr(cat, p)
+    meth, args, name, attrs = spec
+    if name is None:
+        return _pack(getattr(cat, meth)(*args))
+    # the named flavour: the value is what the catalog reports under the extra-property name(s); the method is
+    # called only if this catalog does not have them yet (they were not evaluated before the indexing)
+    if not all(a in cat.extra_properties for a in attrs):
+        getattr(cat, meth)(*args, name=name)
+    return _pack(tuple(getattr(cat, a) for a in attrs)) if len(attrs) > 1 else getattr(cat, attrs[0])
 
 
 # ============================================================================ property lists
@@ -238,7 +378,7 @@ def prop_lists(cls, variant, seed):
         cat = make(cls, variant, seed)
         public = list(cat.properties)
         extra = ['isscalar', 'nlabels'] if cls == 'SC' else ['id', 'ids']
-        for e in extra:
+        for e in extra + list(METHODS[cls]):
             if e not in public:
                 public.append(e)
         private = [n for n in cat._lazyproperties if n.startswith('_')]
@@ -257,7 +397,7 @@ def full_value(cls, variant, seed, p):
         try:
             with warnings.catch_warnings():
                 warnings.simplefilter('ignore')
-                _FULL[k] = ('ok', getattr(cat, p))
+                _FULL[k] = ('ok', evaluate(cat, cls, p))
         except Exception as e:
             _FULL[k] = ('exc', f'{type(e).__name__}: {e}')
     return _FULL[k]
@@ -329,7 +469,7 @@ def do_pre(cat, pre, p, cls, variant, seed):
         warnings.simplefilter('ignore')
         for q in names:
             try:
-                getattr(cat, q)
+                evaluate(cat, cls, q)
             except Exception:
                 pass
 
@@ -405,7 +545,7 @@ def eval_compare(child, cls, p, exp, form, pre, sel):
     try:
         with warnings.catch_warnings():
             warnings.simplefilter('ignore')
-            got = getattr(child, p)
+            got = evaluate(child, cls, p)
     except Exception as e:
         return ('child-raises', _site(cls, form, pre, _raise_site(e), sel, cached_state=False), f'{type(e).__name__}: {e}',
                 short(exp, 200))
@@ -413,6 +553,16 @@ def eval_compare(child, cls, p, exp, form, pre, sel):
     if d:
         return ('commute', _site(cls, form, pre, p, sel), short(got, 300), short(exp, 300) + '   [' + d + ']')
     return None
+
+
+def _restore(child, snap, extras):
+    """Put the child back into its post-index state.  The extra-property list is restored *in place* (methods called
+    with ``name=`` append to it), so that whatever it is shared with stays shared."""
+    child.__dict__.clear()
+    child.__dict__.update(snap)
+    lst = snap.get('_extra_properties')
+    if isinstance(lst, list):
+        lst[:] = extras
 
 
 def run_batch(acc, cls, variant, pre, form, seed):
@@ -431,6 +581,7 @@ def run_batch(acc, cls, variant, pre, form, seed):
     except Exception:
         child = None
     snap = dict(child.__dict__) if child is not None else None
+    extras = list(snap.get('_extra_properties') or []) if child is not None else None
     k0 = state_key({'child': _canon_dict(child), 'parent': _canon_dict(parent)}) if child is not None else None
     if k0 is not None:
         if acc.state_keys is None:
@@ -451,8 +602,7 @@ def run_batch(acc, cls, variant, pre, form, seed):
         if child is None:
             v = True
         else:
-            child.__dict__.clear()
-            child.__dict__.update(snap)
+            _restore(child, snap, extras)
             v = eval_compare(child, cls, p, exp, form, pre, sel)
         if v:
             v2 = run_trace(acc, cls, variant, pre, form, p, seed)
@@ -462,8 +612,7 @@ def run_batch(acc, cls, variant, pre, form, seed):
         else:
             acc.outcome((cls, p, isinstance(sel, int)))
     if child is not None:
-        child.__dict__.clear()
-        child.__dict__.update(snap)
+        _restore(child, snap, extras)
         k1 = state_key({'child': _canon_dict(child), 'parent': _canon_dict(parent)})
         if k1 != k0:
             # an evaluation changed an object shared with the snapshot: the batch is not a faithful stand-in for
@@ -597,11 +746,14 @@ class ExtraSystem:
                 elif name == 'circular_photometry':
                     f, e = cat.circular_photometry(3.0, name='circ')
                     m['circ_flux'], m['circ_fluxerr'] = f, e
+                    self._method_commutes(st, who, 'circular_photometry(3.0,name=m_c)', _pack((f, e)), report)
                 elif name == 'kron_photometry':
                     f, e = cat.kron_photometry((2.0, 1.0), name='kr')
                     m['kr_flux'], m['kr_fluxerr'] = f, e
+                    self._method_commutes(st, who, 'kron_photometry((2.0,1.0),name=m_k)', _pack((f, e)), report)
                 elif name == 'fluxfrac_radius':
                     m['r50'] = cat.fluxfrac_radius(0.5, name='r50')
+                    self._method_commutes(st, who, 'fluxfrac_radius(0.5)', m['r50'], report)
                 elif name == 'copy':
                     st.cats[who] = cat.copy()
                 elif name == 'to_table':
@@ -616,6 +768,17 @@ class ExtraSystem:
                    f'valid operation {op} raised')
             return False
         return True
+
+    def _method_commutes(self, st, who, pseudo, got, report):
+        """A photometry method run on parent or child (whatever the history before) reports, per source, what a fresh
+        full catalog reports for the same sources."""
+        status, full = full_value('SC', self.variant, self.seed, pseudo)
+        if status != 'ok':
+            return
+        d = compare(pseudo, got, take(full, st.sel[who]))
+        if d:
+            report('method-commute', f'SC.{pseudo.split("(")[0]}:{who}', short(got, 300),
+                   short(take(full, st.sel[who]), 300) + '   [' + d + ']')
 
     def invariant(self, st, report):
         for who in ('P', 'C'):
@@ -697,8 +860,9 @@ def plan(tier, seed):
 def extras_plan(tier):
     """(variant, operation menu, BFS depth)"""
     if tier == 'thorough':
-        return [('plain4', 'basic', 5), ('single', 'basic', 5), ('plain4', 'photometry', 4), ('rich4', 'basic', 4)]
-    return [('plain4', 'basic', 4), ('single', 'basic', 4), ('plain4', 'photometry', 3)]
+        return [('plain4', 'basic', 5), ('single', 'basic', 5), ('plain4', 'photometry', 4), ('rich4', 'basic', 4),
+                ('hard6', 'photometry', 4)]
+    return [('plain4', 'basic', 4), ('single', 'basic', 4), ('plain4', 'photometry', 3), ('hard6', 'photometry', 3)]
 
 
 def run_unit(unit, tier, seed):
@@ -739,6 +903,41 @@ def replay(case, seed):
     return acc
 
 
+def exceptional_sources(variant, seed):
+    """Positions of the sources of a SourceCatalog variant that take an exceptional branch of a per-source loop, as
+    measured on the tree under test (single-source children, so that a neighbour cannot influence the answer)."""
+    out = {'all_masked': [], 'centroid_not_finite': [], 'fluxfrac_args_none': [], 'no_halflight_solution': [],
+           'no_fluxfrac_1.0_solution': [], 'kron_radius_minimum': [], 'kron_radius_zero(circular minimum)': [],
+           'quadratic_fit_fallback': [], 'bbox_touches_image_edge': [], 'non_finite_pixel': []}
+    with warnings.catch_warnings():
+        warnings.simplefilter('ignore')
+        n = nsources('SC', variant)
+        for k in range(n):
+            try:
+                c = make('SC', variant, seed)
+                c = c[k] if n > 1 else c
+                ny, nx = c._data.shape
+                args = c._fluxfrac_optimizer_args
+                args = args[0] if isinstance(args, list) else args
+                flags = {'all_masked': bool(np.all(c._all_masked)),
+                         'centroid_not_finite': not np.all(np.isfinite(np.asarray(c.centroid, dtype=float))),
+                         'fluxfrac_args_none': args is None,
+                         'no_halflight_solution': args is not None and bool(np.isnan(c.fluxfrac_radius(0.5).value)),
+                         'no_fluxfrac_1.0_solution': args is not None and bool(np.isnan(c.fluxfrac_radius(1.0).value)),
+                         'kron_radius_minimum': bool(np.all(c._measured_kron_radius <= c.kron_params[1])),
+                         'kron_radius_zero(circular minimum)': bool(c.kron_radius.value == 0),
+                         'quadratic_fit_fallback': bool(np.all(np.asarray(c.centroid_quad) == np.asarray(c.centroid))),
+                         'bbox_touches_image_edge': bool(c.bbox_xmin == 0 or c.bbox_ymin == 0 or c.bbox_xmax == nx - 1
+                                                         or c.bbox_ymax == ny - 1),
+                         'non_finite_pixel': not bool(np.all(np.isfinite(np.asarray(c.data))))}
+            except Exception as e:              # the tree under test may be broken here; that is for the check to say
+                flags = {f'unmeasurable ({type(e).__name__})': True}
+            for name, on in flags.items():
+                if on:
+                    out.setdefault(name, []).append(k)
+    return {k: v for k, v in out.items() if v}
+
+
 def describe(tier, seed):
     out = {'variants': {'SourceCatalog': list(SC_VARIANTS), 'ApertureStats': list(AS_VARIANTS)}, 'template': {}}
     total = 0
@@ -754,6 +953,10 @@ def describe(tier, seed):
             total += nh
     out['template_histories_total'] = total
     out['index_forms_n4'] = index_forms(4)
+    out['index_forms_n6'] = index_forms(6)
+    out['methods_with_arguments'] = {'SourceCatalog': list(SC_METHODS), 'ApertureStats': list(AS_METHODS)}
+    out['hard6_sources'] = dict(zip(map(str, HARD6_LABELS), HARD6_KINDS))
+    out['exceptional_sources'] = {v: exceptional_sources(v, seed) for v in SC_VARIANTS}
     out['bound'] = {'extras_bfs (variant, menu, depth)': [list(x) for x in extras_plan(tier)],
                     'template_depth': 'build, pre-cache (1 set), index (1 or 2 chained), evaluate 1 property'}
     out['tolerance'] = {'rtol': RTOL, 'atol': ATOL, 'extras': 0}
